@@ -63,6 +63,10 @@ def apply_edits(root: Path, v: dict):
     edits = v.get("edits") or [{"file": v["file"], "old": v["old"], "new": v["new"], "count": v.get("count", 1)}]
     for e in edits:
         p = root / e["file"]
+        if "create" in e:
+            p.write_text(e["create"])
+            compile(e["create"], str(p), "exec")
+            continue
         s = p.read_text()
         n = s.count(e["old"])
         if n != e.get("count", 1):
